@@ -131,6 +131,8 @@ def r2_key_discipline(ctx):
                 ok = ok and all(x.kind == "param" and x.detail["idx"] == 2 for x in la)
             elif l.kind == "field" and l.detail["fields"][-1][1] == "id" and l.detail["idx"] == 2 and l.detail["fn"].endswith("process_single_response"):
                 pass  # response.id() traced through: the `id` field of the response parameter
+            elif c.name().endswith("complete_pending_call") and l.kind == "call" and re.search(r"RequestManager::complete_pending_subscription$", l.detail["callee"] or ""):
+                pass  # releasing the unsubscribe id that the pending subscription (found under the response's id) had reserved
             else:
                 ok = False
         R.check(ok, "C03.R2", "%s#%d:key" % (c.name().split("::")[-1], sorted(x.bb for x in b.calls_to(r"RequestManager::")).index(c.bb)), "%s is keyed by the response's own id" % c.name().split("::")[-1], "%s is keyed by %s, not by the id the response carries" % (c.name().split("::")[-1], [flow.leaf_str(l) for l in lv]), where(c))
